@@ -41,8 +41,7 @@ impl SwiftField for Field19 {
 
 /// Format amount for SWIFT output with comma as decimal separator
 fn format_swift_amount(amount: f64) -> String {
-    let formatted = format!("{:.2}", amount);
-    formatted.replace('.', ",")
+    super::swift_utils::format_swift_amount_min_decimals(amount, 2)
 }
 
 #[cfg(test)]
